@@ -15,6 +15,11 @@ import argparse, hashlib, json, os, re, shutil, subprocess, sys, time, glob
 VERIF = os.path.dirname(os.path.abspath(__file__))
 REPO = os.environ.get("VERIF_REPO", "/repo")
 BUILD = os.path.join(VERIF, "build")
+# checks pointed at a scratch copy (mutation / seeded-change self-tests) never touch the registered evidence or replays
+ALT = REPO != "/repo"
+ALT_TAG = ("-alt" + hashlib.sha1(REPO.encode()).hexdigest()[:8]) if ALT else ""   # keeps scratch-copy builds apart from /repo's (and from each other)
+EVIDENCE_DIR = os.path.join(BUILD, "alt-evidence") if ALT else os.path.join(VERIF, "evidence")
+REPLAYS_DIR = os.path.join(BUILD, "alt-replays") if ALT else os.path.join(VERIF, "replays")
 JOBS = int(os.environ.get("VERIF_JOBS", "16"))
 CXX = "clang++"
 SAN = ["-fsanitize=address,undefined", "-fno-sanitize-recover=undefined", "-fno-sanitize=nonnull-attribute"]
@@ -55,7 +60,14 @@ def tree_files(root, pats=None):
 def configure():
     """cmake configure of REPO (tests off) to obtain st_config.h exactly as the project generates it."""
     srcs = [os.path.join(REPO, "CMakeLists.txt"), os.path.join(REPO, "include", "st_config.h.in")] + tree_files(os.path.join(REPO, "cmake"))
-    key = file_hash(srcs, REPO)
+    h = hashlib.sha256()                      # content only: identical configurations of different copies share one directory
+    for pth in sorted(srcs):
+        h.update(os.path.relpath(pth, REPO).encode())
+        try:
+            h.update(open(pth, "rb").read())
+        except OSError:
+            h.update(b"<missing>")
+    key = h.hexdigest()[:16]
     cfg = os.path.join(BUILD, "cfg-" + key)
     hdr = os.path.join(cfg, "include", "st_config.h")
     if not os.path.exists(hdr):
@@ -130,7 +142,7 @@ def build_prop(pid, variant="", want_fuzz=False, quiet=True):
                                        "-include", os.path.join(VERIF, "harness", "common", "st_hook.h")]
     srcs = harness_sources(pid)
     key = file_hash(tree_files(os.path.join(REPO, "include")) + [os.path.join(cfginc, "st_config.h")] + srcs, " ".join(flags) + REPO + eng["engine"] + BUILD_VERSION)
-    tag = pid + ("-" + variant if variant else "")
+    tag = pid + ("-" + variant if variant else "") + ALT_TAG
     d = os.path.join(BUILD, "prop-%s-%s" % (tag, key))
     binp = os.path.join(d, "prop")
     fuzzp = os.path.join(d, "fuzz")
@@ -262,7 +274,7 @@ def check(pid, tier):
     variants = list(dict(spec.get("variants", {"": []})).keys())
     want_fuzz = cfg.get("fuzz_secs", 0) > 0
     bins = {v: build_prop(pid, v, want_fuzz=want_fuzz) for v in variants}
-    work = os.path.join(BUILD, "work-%s-%s" % (pid, tier))
+    work = os.path.join(BUILD, "work-%s-%s%s-%d" % (pid, tier, ALT_TAG, os.getpid()))
     shutil.rmtree(work, ignore_errors=True)
     os.makedirs(work)
     envbase = {"ASAN_OPTIONS": ASAN_ENV, "UBSAN_OPTIONS": "print_stacktrace=1", "TSAN_OPTIONS": "halt_on_error=1 exitcode=66 report_signal_unsafe=0"}
@@ -412,7 +424,7 @@ def check(pid, tier):
     violations, known_hits = [], []
     seen = set()
     sigs = set()
-    rdir = os.path.join(VERIF, "replays", pid)
+    rdir = os.path.join(REPLAYS_DIR, pid)
     for old in glob.glob(os.path.join(rdir, tier + "-*")):
         os.remove(old)
     n_replayed = 0
@@ -475,8 +487,8 @@ def check(pid, tier):
         "assumptions": spec.get("assumptions", []),
         "wall_s": round(wall, 2), "violations": len(violations),
     }
-    os.makedirs(os.path.join(VERIF, "evidence"), exist_ok=True)
-    with open(os.path.join(VERIF, "evidence", pid + ".json"), "w") as f:
+    os.makedirs(EVIDENCE_DIR, exist_ok=True)
+    with open(os.path.join(EVIDENCE_DIR, pid + ".json"), "w") as f:
         json.dump(evidence, f, indent=1)
         f.write("\n")
     for l in known_lines:
